@@ -60,10 +60,10 @@ Qed.
 
 (* ------------------------------------------------------------------ tensor_from_memoryview *)
 Lemma rd_frombuffer_some esize shape buf v :
-  0 < esize -> Forall (fun d => 0 <= d) shape ->
+  0 < esize -> 0 <= prodZ shape ->
   (rd_frombuffer esize shape buf = Some v <-> blen buf = esize * prodZ shape /\ v = buf).
 Proof.
-  intros He Hs. pose proof (prodZ_nonneg shape Hs) as Hp. pose proof (blen_nonneg buf) as Hb.
+  intros He Hp. pose proof (blen_nonneg buf) as Hb.
   unfold rd_frombuffer.
   destruct (blen buf =? 0) eqn:E0.
   - apply Z.eqb_eq in E0. assert (buf = []) by (apply blen_zero_nil; assumption). subst buf.
@@ -85,12 +85,12 @@ Proof.
 Qed.
 
 Lemma rd_frombuffer_ok esize shape buf :
-  0 < esize -> Forall (fun d => 0 <= d) shape -> blen buf = esize * prodZ shape ->
+  0 < esize -> 0 <= prodZ shape -> blen buf = esize * prodZ shape ->
   rd_frombuffer esize shape buf = Some buf.
 Proof. intros He Hs Hb. apply rd_frombuffer_some; auto. Qed.
 
 Lemma rd_frombuffer_wrong_length esize shape buf :
-  0 < esize -> Forall (fun d => 0 <= d) shape -> blen buf <> esize * prodZ shape ->
+  0 < esize -> 0 <= prodZ shape -> blen buf <> esize * prodZ shape ->
   rd_frombuffer esize shape buf = None.
 Proof.
   intros He Hs Hb. destruct (rd_frombuffer esize shape buf) as [v|] eqn:E; [|reflexivity].
@@ -471,6 +471,116 @@ Definition rd_leaf_damaged (s : rd_store) (f : Z) (d : rd_damage) (l : rd_leaf) 
       end
   end.
 
+(* ------------------------------------------------------------------ truncation at or above everything that is read *)
+Lemma rd_locations_sound (rs : list ranged) loc : In loc (locations rs) -> exists r0, In r0 rs /\ r_path r0 = loc.
+Proof.
+  unfold locations.
+  assert (G : forall rs acc x,
+             In x (fold_left (fun acc (r : ranged) => let p := fst (fst r) in if memZ p acc then acc else acc ++ [p]) rs acc) ->
+             In x acc \/ exists r0, In r0 rs /\ r_path r0 = x).
+  { clear. induction rs as [|r0 rs IH]; intros acc x Hx; cbn [fold_left] in Hx; [left; assumption|].
+    apply IH in Hx as [Hx | (r1 & H1 & H2)]; [|right; exists r1; split; [right; assumption | assumption]].
+    destruct (memZ (fst (fst r0)) acc); [left; assumption|].
+    apply in_app_or in Hx as [Hx | [Hx | []]]; [left; assumption|].
+    right. exists r0. split; [left; reflexivity | exact Hx]. }
+  intros H. apply G in H as [[] | H]. exact H.
+Qed.
+
+Lemma rd_fs_read_other d f s p rg : p <> f -> rd_fs_read (rd_apply d f s) p rg = rd_fs_read s p rg.
+Proof. intros H. unfold rd_fs_read. rewrite rd_lookup_apply_other by assumption. reflexivity. Qed.
+
+Lemma rd_fs_read_truncated_range t f s p lo hi :
+  0 <= lo -> hi <= t -> rd_fs_read (rd_apply (RdTruncated t) f s) p (Some (lo, hi)) = rd_fs_read s p (Some (lo, hi)).
+Proof.
+  intros Hlo Hhi. destruct (Z.eq_dec p f) as [-> | Hne]; [|apply rd_fs_read_other; assumption].
+  unfold rd_fs_read. rewrite rd_lookup_apply, Z.eqb_refl. destruct (lookup s f) as [ob|]; [|reflexivity].
+  cbn [rd_damage_obj]. f_equal. apply (rd_slice_truncated_same ob t lo hi Hlo Hhi).
+Qed.
+
+(* every request of the plan reads the same bytes from the truncated store *)
+Lemma rd_deliveries_truncated_same batching ls s f t :
+  rd_ranges_wf ls ->
+  (forall l, In l ls -> lf_path l = f -> exists lo hi, lf_range l = Some (lo, hi) /\ hi <= t) ->
+  forall r, In r (rd_plan batching ls) ->
+    rd_req_deliveries (rd_apply (RdTruncated t) f s) r = rd_req_deliveries s r.
+Proof.
+  intros Hwf Hall r Hr. destruct batching.
+  - unfold rd_plan in Hr. apply in_map_iff in Hr as (pl & <- & Hpl).
+    unfold batch_read in Hpl. apply in_app_or in Hpl as [Hpl | Hpl].
+    + apply in_map_iff in Hpl as ([p c] & <- & Hpc). cbn [fst snd rd_of_rplan rd_req_deliveries].
+      apply in_unranged_of in Hpc. apply rd_in_reqs_of in Hpc as (_ & l & Hn & -> & Hrg).
+      destruct (Z.eq_dec (lf_path l) f) as [Hp | Hp]; [|rewrite rd_fs_read_other by assumption; reflexivity].
+      destruct (Hall l (nth_error_In _ _ Hn) Hp) as (lo & hi & Hr & _). congruence.
+    + apply in_map_iff in Hpl as (loc & <- & Hloc). unfold merge_location.
+      set (mine := at_location loc (ranged_of (rd_reqs_of ls))).
+      destruct (merged_range mine) as [L H] eqn:EM. cbn [rd_of_rplan rd_req_deliveries].
+      destruct (Z.eq_dec loc f) as [Hp | Hp]; [|rewrite rd_fs_read_other by assumption; reflexivity].
+      assert (Hb : 0 <= fst (merged_range mine) /\ snd (merged_range mine) <= t).
+      { apply rd_merged_range_bounds.
+        - destruct (rd_locations_sound _ _ Hloc) as (r0 & Hr0 & Hp0).
+          assert (In r0 mine) by (unfold mine, at_location; apply filter_In; split; [assumption | unfold r_path in Hp0; lia]).
+          intros Hnil. rewrite Hnil in H0. contradiction.
+        - intros [[p [lo hi]] c] Hin. unfold mine, at_location in Hin. apply filter_In in Hin as [Hin Hpe].
+          cbn [fst] in Hpe. apply Z.eqb_eq in Hpe. subst p.
+          apply in_ranged_of in Hin. apply rd_in_reqs_of in Hin as (_ & l & Hn & Hpath & Hrg).
+          destruct (Hall l (nth_error_In _ _ Hn) ltac:(congruence)) as (lo' & hi' & Hr' & Hle).
+          rewrite Hr' in Hrg. inversion Hrg; subst lo' hi'.
+          pose proof (Hwf l lo hi (nth_error_In _ _ Hn) Hr'). unfold r_lo, r_hi. cbn [fst snd]. lia. }
+      rewrite EM in Hb. cbn [fst snd] in Hb. rewrite rd_fs_read_truncated_range by lia. reflexivity.
+  - apply rd_unbatched_plan_in in Hr as (i & l & Hn & ->). cbn [rd_req_deliveries].
+    destruct (Z.eq_dec (lf_path l) f) as [Hp | Hp]; [|rewrite rd_fs_read_other by assumption; reflexivity].
+    destruct (Hall l (nth_error_In _ _ Hn) Hp) as (lo & hi & Hr & Hle). rewrite Hr.
+    pose proof (Hwf l lo hi (nth_error_In _ _ Hn) Hr). rewrite rd_fs_read_truncated_range by lia. reflexivity.
+Qed.
+
+Lemma rd_truncation_beyond_needs_harmless (obj : Type) (load : bytes -> option obj) legacy batching ls s f t :
+  rd_ranges_wf ls ->
+  (forall l, In l ls -> lf_path l = f -> exists lo hi, lf_range l = Some (lo, hi) /\ hi <= t) ->
+  rd_restore obj load legacy batching ls (rd_apply (RdTruncated t) f s) = rd_restore obj load legacy batching ls s.
+Proof.
+  intros Hwf Hall. unfold rd_restore, rd_run. f_equal.
+  replace (map (rd_run_req obj load legacy ls (rd_apply (RdTruncated t) f s)) (rd_plan batching ls))
+    with (map (rd_run_req obj load legacy ls s) (rd_plan batching ls)); [reflexivity|].
+  apply map_ext_in. intros r Hr. unfold rd_run_req.
+  rewrite (rd_deliveries_truncated_same batching ls s f t Hwf Hall r Hr). reflexivity.
+Qed.
+
+(* the merged read request of one location of the batched plan covers exactly [min lo, max hi) of the leaves on it *)
+Lemma rd_batched_extent ls p lo hi subs :
+  In (RdBatched p lo hi subs) (rd_plan true ls) ->
+  (exists l h, In l ls /\ lf_path l = p /\ lf_range l = Some (lo, h))
+  /\ (exists l a, In l ls /\ lf_path l = p /\ lf_range l = Some (a, hi))
+  /\ (forall l a b, In l ls -> lf_path l = p -> lf_range l = Some (a, b) -> lo <= a /\ b <= hi).
+Proof.
+  unfold rd_plan. intros H. apply in_map_iff in H as (pl & Heq & Hpl).
+  unfold batch_read in Hpl. apply in_app_or in Hpl as [Hpl | Hpl].
+  { apply in_map_iff in Hpl as (pc & <- & _). discriminate. }
+  apply in_map_iff in Hpl as (loc & <- & Hloc). unfold merge_location in Heq.
+  set (mine := at_location loc (ranged_of (rd_reqs_of ls))) in *.
+  destruct (merged_range mine) as [L H] eqn:EM. cbn [rd_of_rplan] in Heq. inversion Heq; subst p lo hi subs. clear Heq.
+  assert (Hne : mine <> []).
+  { destruct (rd_locations_sound _ _ Hloc) as (r0 & Hr0 & Hp0).
+    assert (In r0 mine) by (unfold mine, at_location; apply filter_In; split; [assumption | unfold r_path in Hp0; lia]).
+    intros Hnil. rewrite Hnil in H0. contradiction. }
+  assert (Hleaf : forall r, In r mine -> exists l, In l ls /\ lf_path l = loc /\ lf_range l = Some (r_lo r, r_hi r)).
+  { intros [[p [a b]] c] Hin. unfold mine, at_location in Hin. apply filter_In in Hin as [Hin Hp].
+    cbn [fst] in Hp. apply Z.eqb_eq in Hp. subst p. apply in_ranged_of in Hin.
+    apply rd_in_reqs_of in Hin as (_ & l & Hn & Hpath & Hrg). exists l.
+    split; [eapply nth_error_In; eassumption|]. unfold r_lo, r_hi. cbn [fst snd]. auto. }
+  destruct (rd_merged_range_exact mine Hne) as ((r1 & Hr1 & HL) & (r2 & Hr2 & HH) & Hall).
+  rewrite EM in HL, HH, Hall. cbn [fst snd] in HL, HH, Hall.
+  split; [|split].
+  - destruct (Hleaf r1 Hr1) as (l & Hl & Hp & Hr). exists l, (r_hi r1). rewrite HL. auto.
+  - destruct (Hleaf r2 Hr2) as (l & Hl & Hp & Hr). exists l, (r_lo r2). rewrite HH. auto.
+  - intros l a b Hl Hp Hr. apply In_nth_error in Hl as (i & Hi).
+    assert (Hreq : In (loc, Some (a, b), Z.of_nat i) (rd_reqs_of ls)).
+    { apply rd_in_reqs_of. split; [lia|]. exists l. rewrite Nat2Z.id. auto. }
+    apply in_ranged_of in Hreq.
+    assert (Hin : In (loc, (a, b), Z.of_nat i) mine).
+    { unfold mine, at_location. apply filter_In. split; [assumption | cbn; apply Z.eqb_refl]. }
+    apply Hall in Hin. unfold r_lo, r_hi in Hin. cbn [fst snd] in Hin. exact Hin.
+Qed.
+
 Section Main.
   Variable obj : Type.
   Variable load : bytes -> option obj.     (* torch.load *)
@@ -483,17 +593,17 @@ Section Main.
   Notation restore := (rd_restore obj load false).
   Notation expected := (rd_expected obj load).
 
-  (* a leaf is consistent with the (undamaged) store s:
+  (* a leaf is consistent with the (undamaged) store s (numel = prod(shape) >= 0):
        buffer-protocol tensor with byte range [lo, hi): hi - lo = esize * numel, 0 <= lo, hi <= size of the object
        buffer-protocol tensor without byte range:       size of the object = esize * numel
        torch.load leaf (object / torch_save tensor):    no byte range, the object holds a torch.save archive *)
   Definition rd_leaf_wf (s : rd_store) (l : rd_leaf) : Prop :=
     match lf_kind l, lf_range l with
     | RdTensor esize shape, Some (lo, hi) =>
-        0 < esize /\ Forall (fun d => 0 <= d) shape /\ 0 <= lo /\ hi - lo = esize * prodZ shape
+        0 < esize /\ 0 <= prodZ shape /\ 0 <= lo /\ hi - lo = esize * prodZ shape
         /\ exists ob, lookup s (lf_path l) = Some ob /\ hi <= blen ob
     | RdTensor esize shape, None =>
-        0 < esize /\ Forall (fun d => 0 <= d) shape
+        0 < esize /\ 0 <= prodZ shape
         /\ exists ob, lookup s (lf_path l) = Some ob /\ blen ob = esize * prodZ shape
     | RdLoad, None => exists o, lookup s (lf_path l) = Some (save o)
     | RdLoad, Some _ => False
@@ -506,7 +616,7 @@ Section Main.
   Proof.
     intros Hwf l lo hi Hin Hr. rewrite Forall_forall in Hwf. specialize (Hwf l Hin).
     unfold rd_leaf_wf in Hwf. rewrite Hr in Hwf. destruct (lf_kind l) as [esize shape|]; [|contradiction].
-    destruct Hwf as (He & Hs & Hlo & Hlen & _). pose proof (prodZ_nonneg shape Hs). nia.
+    destruct Hwf as (He & Hs & Hlo & Hlen & _). nia.
   Qed.
 
   Lemma rd_wf_lookup s l : rd_leaf_wf s l -> exists ob, lookup s (lf_path l) = Some ob.
@@ -526,7 +636,7 @@ Section Main.
     unfold rd_leaf_wf, rd_expected. intros Hwf Hl. rewrite Hl.
     destruct (lf_kind l) as [esize shape|]; destruct (lf_range l) as [[lo hi]|]; try contradiction.
     - destruct Hwf as (He & Hs & Hlo & Hlen & ob' & Hl' & Hhi). rewrite Hl in Hl'. inversion Hl'; subst ob'.
-      pose proof (prodZ_nonneg shape Hs) as Hp.
+      pose proof Hs as Hp.
       exists (RdBytes (read_obj ob (Some (lo, hi)))). split; [reflexivity|]. split.
       + cbn [rd_consume read_obj]. rewrite rd_frombuffer_ok; try assumption; [reflexivity|].
         rewrite blen_slice by nia. pose proof (blen_nonneg ob). nia.
@@ -655,3 +765,265 @@ Section Main.
       rewrite Hc' in Hc. inversion Hc; subst. rewrite Nat2Z.id in Hn'. congruence.
   Qed.
 End Main.
+
+(* ------------------------------------------------------------------ zero-length ranges; the pre-fix consumer *)
+Section Corollaries.
+  Variable obj : Type.
+  Variable load : bytes -> option obj.
+  Variable save : obj -> bytes.
+  Hypothesis load_save : forall o, load (save o) = Some o.
+  Hypothesis load_prefix_rejected :
+    forall o t, 0 <= t < blen (save o) -> load (firstn (Z.to_nat t) (save o)) = None.
+
+  (* an object from which only EMPTY ranges are read can be truncated anywhere (to 0 bytes included): the call still
+     returns with the saved values ... *)
+  Lemma rd_empty_ranges_survive_truncation batching s ls f t :
+    rd_plan_wf obj save s ls -> 0 <= t ->
+    (forall l, In l ls -> lf_path l = f -> exists lo, lf_range l = Some (lo, lo)) ->
+    exists out, rd_restore obj load false batching ls (rd_apply (RdTruncated t) f s) = Some out /\
+      forall i l, nth_error ls i = Some l ->
+        exists v, rd_expected obj load s l = Some v
+                  /\ (v <> RdBytes [] -> In (Z.of_nat i, v) out)
+                  /\ (forall v', In (Z.of_nat i, v') out -> v' = v).
+  Proof.
+    intros Hwf Ht Hall.
+    apply (rd_undamaged_succeeds obj load save load_save load_prefix_rejected batching s ls f (RdTruncated t) Hwf).
+    - intros t' H. inversion H; subst. assumption.
+    - intros l Hin [Hp Hd]. destruct (Hall l Hin Hp) as (lo & Hr). rewrite Hr in Hd. lia.
+  Qed.
+
+  (* ... but deleting it makes the call raise: the read request is still issued and open() fails *)
+  Lemma rd_deleted_object_raises batching s ls f :
+    rd_plan_wf obj save s ls -> (exists l, In l ls /\ lf_path l = f) ->
+    rd_restore obj load false batching ls (rd_apply RdDeleted f s) = None.
+  Proof.
+    intros Hwf (l & Hin & Hp).
+    apply (rd_damaged_raises obj load save load_save load_prefix_rejected batching s ls f RdDeleted Hwf).
+    - intros t H. discriminate.
+    - exists l. split; [assumption|]. split; [assumption | exact I].
+  Qed.
+
+  (* the pre-fix BatchedBufferConsumer: a slab [1;2;3;4] holding two 2-byte tensors, cut to 3 bytes, batching on -
+     restore returns normally, the second tensor's target is left untouched; the current consumer raises *)
+  Lemma rd_legacy_batched_swallows_refuted :
+    exists (ls : list rd_leaf) (s : rd_store) (f t : Z) (i : nat) (l : rd_leaf),
+      rd_plan_wf obj save s ls /\ 0 <= t /\ nth_error ls i = Some l /\ rd_leaf_damaged s f (RdTruncated t) l
+      /\ rd_expected obj load s l = Some (RdBytes [3; 4])
+      /\ (exists out, rd_restore obj load true true ls (rd_apply (RdTruncated t) f s) = Some out
+                      /\ rd_final_of obj out (Z.of_nat i) = RdUntouched)
+      /\ rd_restore obj load false true ls (rd_apply (RdTruncated t) f s) = None.
+  Proof.
+    exists [mkLeaf 0 (Some (0, 2)) (RdTensor 1 [2]); mkLeaf 0 (Some (2, 4)) (RdTensor 1 [2])],
+           [(0, [1; 2; 3; 4])], 0, 3, 1%nat, (mkLeaf 0 (Some (2, 4)) (RdTensor 1 [2])).
+    split; [|split; [lia | split; [reflexivity | split; [|split; [reflexivity | split]]]]].
+    - split.
+      + apply Forall_cons; [|apply Forall_cons; [|apply Forall_nil]]; unfold rd_leaf_wf;
+          cbn [lf_kind lf_range lf_path prodZ fold_right];
+          (split; [lia | split; [lia | split; [lia | split; [lia|]]]]);
+          exists [1; 2; 3; 4]; (split; [reflexivity | unfold blen; cbn [length]; lia]).
+      + intros i j li lj lo hi Hi Hj _ Hri Hrj Hlt.
+        destruct i as [|[|i]]; destruct j as [|[|j]]; cbn in Hi, Hj; try reflexivity;
+          try (destruct i; discriminate); try (destruct j; discriminate);
+          inversion Hi; inversion Hj; subst; cbn in Hri, Hrj; congruence.
+    - split; [reflexivity|]. cbn. lia.
+    - eexists. split; [vm_compute; reflexivity | vm_compute; reflexivity].
+    - vm_compute. reflexivity.
+  Qed.
+End Corollaries.
+
+(* ------------------------------------------------------------------ entries -> leaves *)
+Lemma rd_consecutive_last rs : forall cur fin,
+  consecutive cur rs fin -> rs <> [] -> exists r, In r rs /\ snd r = fin.
+Proof.
+  induction rs as [|[lo hi] rs IH]; intros cur fin H Hne; [congruence|].
+  cbn in H. destruct H as (-> & Hle & H). destruct rs as [|r' rs'].
+  - cbn in H. subst. exists (cur, fin). split; [left; reflexivity | reflexivity].
+  - destruct (IH hi fin H ltac:(discriminate)) as (r & Hr & Hs). exists r. split; [right; assumption | assumption].
+Qed.
+
+Section Entries.
+  Variable obj : Type.
+  Variable save : obj -> bytes.
+
+  (* a tensor read (lim, t) is consistent with the undamaged store:
+       buffer protocol: 0 < esize, extents >= 0;
+                        byte_range [lo, hi): 0 <= lo, hi - lo = esize * numel, the object exists and hi <= its size;
+                        no byte_range: the object exists and its size = esize * numel;
+                        tiled (lim = Some b): 1 <= b, and a target that cannot be flattened has >= 1 dimension
+       torch_save / object: no byte_range, the object is a torch.save archive *)
+  Definition rd_tentry_wf (s : rd_store) (lt : option Z * rd_tentry) : Prop :=
+    let t := snd lt in
+    if te_bufproto t then
+      0 < te_esize t /\ Forall (fun d => 0 <= d) (te_shape t)
+      /\ match te_range t with
+         | Some (lo, hi) => 0 <= lo /\ hi - lo = te_esize t * prodZ (te_shape t)
+                            /\ exists ob, lookup s (te_loc t) = Some ob /\ hi <= blen ob
+         | None => exists ob, lookup s (te_loc t) = Some ob /\ blen ob = te_esize t * prodZ (te_shape t)
+         end
+      /\ match fst lt with None => True | Some b => 1 <= b /\ (te_flat t = false -> te_shape t <> []) end
+    else te_range t = None /\ exists o, lookup s (te_loc t) = Some (save o).
+
+  (* the damage removes something the (untiled) read of t needs *)
+  Definition rd_tentry_damaged (s : rd_store) (f : Z) (d : rd_damage) (t : rd_tentry) : Prop :=
+    rd_leaf_damaged s f d (mkLeaf (te_loc t) (te_range t) RdLoad).
+
+  Lemma rd_tensor_leaves_spec s lt :
+    rd_tentry_wf s lt ->
+    exists ls, rd_tensor_leaves (fst lt) (snd lt) = Some ls /\ Forall (rd_leaf_wf obj save s) ls
+               /\ forall f d, (forall tt, d = RdTruncated tt -> 0 <= tt) ->
+                    ((exists l, In l ls /\ rd_leaf_damaged s f d l) <-> rd_tentry_damaged s f d (snd lt)).
+  Proof.
+    destruct lt as [lim t]. unfold rd_tentry_wf, rd_tensor_leaves, rd_tentry_damaged. cbn [fst snd].
+    destruct (te_bufproto t).
+    2:{ intros (Hr & o & Hl). eexists. split; [reflexivity|]. split.
+        - repeat constructor. unfold rd_leaf_wf. cbn. rewrite Hr. eauto.
+        - intros f d _. split.
+          + intros (l & [<- | []] & Hd). exact Hd.
+          + intros Hd. eexists. split; [left; reflexivity | exact Hd]. }
+    intros (He & Hs & Hrange & Hlim). pose proof (prodZ_nonneg _ Hs) as Hp.
+    destruct lim as [b|].
+    2:{ eexists. split; [reflexivity|]. split.
+        - repeat constructor. unfold rd_leaf_wf. cbn.
+          destruct (te_range t) as [[lo hi]|]; [destruct Hrange as (H1 & H2 & H3); auto 6 | auto].
+        - intros f d _. split.
+          + intros (l & [<- | []] & Hd). exact Hd.
+          + intros Hd. eexists. split; [left; reflexivity | exact Hd]. }
+    destruct Hlim as [Hb Hflat].
+    remember (match te_range t with Some (lo, _) => lo | None => 0 end) as base eqn:Ebase.
+    destruct (tile_partition (te_shape t) (te_flat t) (te_esize t) b base Hb He Hs Hflat)
+      as (tiles & lens & Htile & Hcons & Hlen & _ & _ & Hne & Hpos).
+    rewrite Htile. eexists. split; [reflexivity|].
+    remember (base + te_esize t * prodZ (te_shape t)) as fin eqn:Efin.
+    assert (Hbase : 0 <= base /\ exists ob, lookup s (te_loc t) = Some ob /\ fin <= blen ob
+                    /\ (te_range t = None -> fin = blen ob /\ base = 0)
+                    /\ (forall lo hi, te_range t = Some (lo, hi) -> lo = base /\ hi = fin)).
+    { subst fin base. destruct (te_range t) as [[lo hi]|].
+      - destruct Hrange as (H1 & H2 & ob & H3 & H4). split; [assumption|]. exists ob. split; [assumption|].
+        split; [lia|]. split; [discriminate|]. intros lo' hi' H; inversion H; subst. lia.
+      - destruct Hrange as (ob & H3 & H4). split; [lia|]. exists ob. split; [assumption|]. split; [lia|].
+        split; [intros _; lia | discriminate]. }
+    destruct Hbase as (Hb0 & ob & Hob & Hfin & Hnone & Hsome).
+    pose proof (consecutive_bounds _ _ _ Hcons) as Hbnd.
+    assert (Htl : forall tl, In tl tiles ->
+              base <= fst (tile_range tl) /\ fst (tile_range tl) <= snd (tile_range tl) /\ snd (tile_range tl) <= fin
+              /\ snd (tile_range tl) - fst (tile_range tl) = te_esize t * prodZ (tile_shape tl)).
+    { intros tl Hin. pose proof (Hbnd (tile_range tl) (in_map tile_range _ _ Hin)) as (H1 & H2 & H3).
+      rewrite Forall_forall in Hlen. pose proof (Hlen tl Hin). auto. }
+    split.
+    - rewrite Forall_forall. intros l Hl. apply in_map_iff in Hl as ([[lo hi] sh] & <- & Hin).
+      destruct (Htl _ Hin) as (H1 & H2 & H3 & H4). unfold tile_range, tile_shape in *. cbn [fst snd] in *.
+      unfold rd_leaf_wf. cbn [lf_kind lf_range lf_path].
+      split; [assumption|]. split; [nia|]. split; [lia|]. split; [assumption|]. exists ob. split; [assumption | lia].
+    - intros f d Htt. unfold rd_leaf_damaged at 2. cbn [lf_path lf_range]. split.
+      + intros (l & Hl & Hpath & Hd). apply in_map_iff in Hl as ([[lo hi] sh] & <- & Hin).
+        destruct (Htl _ Hin) as (H1 & H2 & H3 & H4). unfold tile_range, tile_shape in *. cbn [fst snd lf_path lf_range] in *.
+        split; [assumption|]. destruct d as [|tt]; [exact I|]. destruct Hd as [Hd1 Hd2].
+        destruct (te_range t) as [[lo0 hi0]|] eqn:Er.
+        * destruct (Hsome lo0 hi0 eq_refl) as [E1 E2]. lia.
+        * exists ob. rewrite <- Hpath. split; [assumption|]. destruct (Hnone eq_refl). lia.
+      + intros [Hpath Hd]. destruct d as [|tt].
+        * destruct tiles as [|[[lo hi] sh] tiles']; [congruence|].
+          eexists. split; [left; reflexivity|]. split; [exact Hpath | exact I].
+        * assert (Hgap : base < fin /\ tt < fin).
+          { specialize (Htt tt eq_refl). destruct (te_range t) as [[lo0 hi0]|] eqn:Er.
+            - destruct (Hsome lo0 hi0 eq_refl) as [E1 E2]. lia.
+            - destruct Hd as (ob' & Hob' & Hlt). rewrite <- Hpath, Hob in Hob'. inversion Hob'; subst ob'.
+              destruct (Hnone eq_refl). lia. }
+          assert (Hpp : 0 < prodZ (te_shape t)) by nia.
+          specialize (Hpos Hpp). rewrite Forall_forall in Hpos.
+          destruct (rd_consecutive_last _ _ _ Hcons) as (r & Hr & Hlast).
+          { destruct tiles; [congruence | discriminate]. }
+          apply in_map_iff in Hr as ([[lo hi] sh] & <- & Hin).
+          pose proof (Hpos _ Hin) as Hne'. unfold tile_range in Hne', Hlast. cbn [fst snd] in Hne', Hlast.
+          exists (mkLeaf (te_loc t) (Some (lo, hi)) (RdTensor (te_esize t) sh)). split.
+          -- apply in_map_iff. exists (lo, hi, sh). split; [reflexivity | assumption].
+          -- split; [exact Hpath|]. cbn [lf_range]. lia.
+  Qed.
+
+  (* the planner turns consistent entries into a consistent leaf plan, and a leaf of the plan is damaged exactly when
+     the damage removes something one of the entries' tensor reads needs *)
+  Lemma rd_read_plan_wf s limit es :
+    Forall (rd_tentry_wf s) (rd_parts limit es) ->
+    exists ls, rd_read_plan limit es = Some ls /\ Forall (rd_leaf_wf obj save s) ls
+               /\ forall f d, (forall tt, d = RdTruncated tt -> 0 <= tt) ->
+                    ((exists l, In l ls /\ rd_leaf_damaged s f d l)
+                     <-> (exists lt, In lt (rd_parts limit es) /\ rd_tentry_damaged s f d (snd lt))).
+  Proof.
+    unfold rd_read_plan, rd_concat_opt. generalize (rd_parts limit es) as parts. clear es.
+    intros parts Hwf. rewrite Forall_forall in Hwf.
+    set (fn := fun lt : option Z * rd_tentry => rd_tensor_leaves (fst lt) (snd lt)).
+    destruct (rd_all_ok (map fn parts)) as [xs|] eqn:E.
+    2:{ exfalso. apply rd_all_ok_none in E. apply in_map_iff in E as (lt & Hnone & Hin).
+        destruct (rd_tensor_leaves_spec s lt (Hwf lt Hin)) as (ls & Hls & _). unfold fn in Hnone. congruence. }
+    eexists. split; [reflexivity|].
+    assert (Hxs : forall x, In x xs <-> exists lt, In lt parts /\ fn lt = Some x).
+    { intros x. rewrite (rd_all_ok_in _ _ x E), in_map_iff. split; intros (lt & H1 & H2); exists lt; auto. }
+    split.
+    - rewrite Forall_forall. intros l Hl. apply in_concat in Hl as (x & Hx & Hl). apply Hxs in Hx as (lt & Hin & Hfn).
+      destruct (rd_tensor_leaves_spec s lt (Hwf lt Hin)) as (ls & Hls & Hall & _).
+      unfold fn in Hfn. rewrite Hls in Hfn. inversion Hfn; subst x. rewrite Forall_forall in Hall. auto.
+    - intros f d Htt. split.
+      + intros (l & Hl & Hd). apply in_concat in Hl as (x & Hx & Hl). apply Hxs in Hx as (lt & Hin & Hfn).
+        destruct (rd_tensor_leaves_spec s lt (Hwf lt Hin)) as (ls & Hls & _ & Hiff).
+        unfold fn in Hfn. rewrite Hls in Hfn. inversion Hfn; subst x. exists lt. split; [assumption|].
+        apply (proj1 (Hiff f d Htt)). eauto.
+      + intros (lt & Hin & Hd). destruct (rd_tensor_leaves_spec s lt (Hwf lt Hin)) as (ls & Hls & _ & Hiff).
+        destruct (proj2 (Hiff f d Htt) Hd) as (l & Hl & Hd'). exists l. split; [|assumption].
+        apply in_concat. exists ls. split; [|assumption]. apply Hxs. exists lt. auto.
+  Qed.
+End Entries.
+
+(* ------------------------------------------------------------------ entries: the two main statements composed *)
+Section EntriesMain.
+  Variable obj : Type.
+  Variable load : bytes -> option obj.
+  Variable save : obj -> bytes.
+  Hypothesis load_save : forall o, load (save o) = Some o.
+  Hypothesis load_prefix_rejected :
+    forall o t, 0 <= t < blen (save o) -> load (firstn (Z.to_nat t) (save o)) = None.
+
+  Lemma rd_entries_damaged_raises batching s limit es ls f d :
+    Forall (rd_tentry_wf obj save s) (rd_parts limit es) -> rd_read_plan limit es = Some ls -> rd_distinct_ranges ls ->
+    (forall t, d = RdTruncated t -> 0 <= t) ->
+    (exists lt, In lt (rd_parts limit es) /\ rd_tentry_damaged s f d (snd lt)) ->
+    rd_restore obj load false batching ls (rd_apply d f s) = None.
+  Proof.
+    intros Hwf Hplan Hdist Ht Hd.
+    destruct (rd_read_plan_wf obj save s limit es Hwf) as (ls' & Hp' & Hlw & Hiff).
+    rewrite Hplan in Hp'. inversion Hp'; subst ls'.
+    apply (rd_damaged_raises obj load save load_save load_prefix_rejected batching s ls f d); [split; assumption | assumption|].
+    apply (proj2 (Hiff f d Ht)). assumption.
+  Qed.
+
+  Lemma rd_entries_undamaged_succeed batching s limit es ls f d :
+    Forall (rd_tentry_wf obj save s) (rd_parts limit es) -> rd_read_plan limit es = Some ls -> rd_distinct_ranges ls ->
+    (forall t, d = RdTruncated t -> 0 <= t) ->
+    (forall lt, In lt (rd_parts limit es) -> ~ rd_tentry_damaged s f d (snd lt)) ->
+    exists out, rd_restore obj load false batching ls (rd_apply d f s) = Some out /\
+      forall i l, nth_error ls i = Some l ->
+        exists v, rd_expected obj load s l = Some v
+                  /\ (v <> RdBytes [] -> In (Z.of_nat i, v) out)
+                  /\ (forall v', In (Z.of_nat i, v') out -> v' = v).
+  Proof.
+    intros Hwf Hplan Hdist Ht Hnd.
+    destruct (rd_read_plan_wf obj save s limit es Hwf) as (ls' & Hp' & Hlw & Hiff).
+    rewrite Hplan in Hp'. inversion Hp'; subst ls'.
+    apply (rd_undamaged_succeeds obj load save load_save load_prefix_rejected batching s ls f d); [split; assumption | assumption|].
+    intros l Hl Hd. destruct (proj1 (Hiff f d Ht) (ex_intro _ l (conj Hl Hd))) as (lt & Hin & Hd'). exact (Hnd lt Hin Hd').
+  Qed.
+End EntriesMain.
+
+(* ------------------------------------------------------------------ the assumed law of torch.load is satisfiable *)
+Lemma rd_toy_load_save o : rd_toy_load (rd_toy_save o) = Some o.
+Proof. unfold rd_toy_load, rd_toy_save. rewrite Z.eqb_refl. reflexivity. Qed.
+
+Lemma rd_toy_prefix_rejected o t :
+  0 <= t < blen (rd_toy_save o) -> rd_toy_load (firstn (Z.to_nat t) (rd_toy_save o)) = None.
+Proof.
+  unfold rd_toy_save. intros Ht. assert (Hlen : blen (blen o :: o) = 1 + blen o) by (unfold blen; cbn [length]; lia).
+  rewrite Hlen in Ht. destruct (Z.to_nat t) as [|n] eqn:En; [reflexivity|].
+  cbn [firstn rd_toy_load].
+  assert (Hn : blen (firstn n o) <> blen o).
+  { unfold blen. rewrite firstn_length. unfold blen in Ht. lia. }
+  destruct (blen (firstn n o) =? blen o) eqn:E; [apply Z.eqb_eq in E; contradiction | reflexivity].
+Qed.
